@@ -6,7 +6,7 @@ every cursor access under the channel lock (L-GUARDED), balanced locking
 from .. import lockrules as LR
 from ..locks import LockAnalysis
 from ..channelrules import (CHANNEL_FIELDS, channel_functions, rule_write_guard,
-                            rule_encaps, rule_dimensions, rule_stale_across_wait, rule_cursor_pair, rule_cursor_copy)
+                            rule_encaps, rule_dimensions, rule_stale_across_wait, rule_cursor_pair, rule_cursor_copy, rule_full_guard)
 
 EXPLANATION = (
     "Static analysis over clang CFGs. R-WRITE-GUARD: a path-sensitive dataflow "
@@ -34,6 +34,9 @@ def run(ctx, res):
         "flag values read twice within one hold of the lock are equal (used to prune contradictory branches)",
     ]
     rule_write_guard(prog, res)
+    if rule_full_guard(prog, res, la) < 2:
+        from ..build import AnalysisBroken
+        raise AnalysisBroken("next_write: fewer than two grant returns found")
     rule_stale_across_wait(prog, res, la, CHANNEL_FIELDS)
     n = rule_encaps(prog, res, la)
     LR.rule_l_pair(la, res, channel_functions(prog))
